@@ -386,6 +386,9 @@ def mark_schema(rnd, tries=20):
             nodes["p%d" % j] = sp
         if rnd.random() < 0.5:
             nodes["q"] = {"content": "block+", "group": "block"}
+        if rnd.random() < 0.4:
+            # an inline node with content (atom, so that mark steps treat it like a leaf)
+            nodes["sa"] = {"inline": True, "group": "inline", "content": "text*", "atom": True}
         sc = _mk_sch({"nodes": nodes, "marks": marks}, "random")
         if sc is not None:
             return sc
@@ -407,8 +410,11 @@ def wrap_schema(rnd, tries=30):
             pool = conts[k + 1:] + leaves if rnd.random() < 0.8 else conts + leaves
             a, b = rnd.choice(pool), rnd.choice(pool)
             sp = {"content": rnd.choice(_WRAP_TEMPLATES).format(a=a, b=b)}
-            if rnd.random() < 0.15:
+            r_ = rnd.random()
+            if r_ < 0.15:
                 sp["attrs"] = {"q": {}}
+            elif r_ < 0.35:
+                sp["attrs"] = {"q": {"default": None}}
             nodes[c] = sp
         a, b = rnd.choice(conts), rnd.choice(conts)
         nodes["doc"] = {"content": rnd.choice(["({a} | {b})+", "{a}+", "{a} {b}*", "({a} | {b} | l0)+"]).format(a=a, b=b)}
